@@ -36,7 +36,7 @@ Theorem step_never_panics im vis s o n :
 Proof.
   intros [_ Hf]. destruct o; cbn [step]; try apply row_step_never_panics.
   - (* OFrame *)
-    destruct (remaining s =? 0); [cbn; discriminate|].
+    destruct (frame_refused s); [cbn; discriminate|].
     destruct (if advancing s then advance im vis s else (s, None)) as [s1 r1] eqn:E1.
     destruct r1 as [r|].
     + cbn. intro Hc. subst r. destruct (advancing s); [|inversion E1].
@@ -70,7 +70,7 @@ Theorem after_finish_everything_is_refused im vis s o :
   done s' /\ d = [] /\ (r = REndOfImage \/ r = RRowNone).
 Proof.
   intros (Hf & Hr & Hfl & Hn). destruct o; cbn [step]; unfold row_step.
-  - rewrite Hr. cbn. repeat split; auto.
+  - unfold frame_refused. rewrite Hr, Hn, andb_false_r. cbn. repeat split; auto.
   - rewrite Hn. unfold finish_decoding. rewrite Hn, Hfl. repeat split; auto.
   - rewrite Hn. unfold finish_decoding. rewrite Hn, Hfl. repeat split; auto.
   - rewrite Hfl, Hr. cbn. repeat split; auto.
@@ -88,7 +88,7 @@ Theorem after_last_frame im vis s o :
   let '(s', r, d) := step im vis s o in s' = s /\ d = [] /\ (r = REndOfImage \/ r = RRowNone).
 Proof.
   intros Hr Hfl Hn Ho. destruct o; cbn [step]; unfold row_step; try congruence.
-  - rewrite Hr. cbn. auto.
+  - unfold frame_refused. rewrite Hr, Hn, andb_false_r. cbn. auto.
   - rewrite Hn. unfold finish_decoding. rewrite Hn, Hfl. auto.
   - rewrite Hn. unfold finish_decoding. rewrite Hn, Hfl. auto.
   - rewrite Hfl, Hr. cbn. auto.
@@ -130,7 +130,7 @@ Theorem frame_call_delivers_the_remaining_rows im vis s s' r d :
     (* running out of input leaves the cursor after the rows written so far *)
     (r = REofR -> d <> [] -> next_row s' = Some (j0 + length d) \/ j0 + length d = nrows im (cur s')).
 Proof.
-  intro Hcur. cbn [step]. destruct (remaining s =? 0) eqn:Er.
+  intro Hcur. cbn [step]. destruct (frame_refused s) eqn:Er.
   { intro H; inversion H; subst. exists (pos im s'). cbn. repeat split; try discriminate; try congruence. }
   destruct (advancing s) eqn:Efl.
   - destruct (advance im vis s) as [s1 [r1|]] eqn:Ea.
@@ -237,7 +237,7 @@ Lemma one_frame im k s : valid im -> (k < length (rows im))%nat -> (k < declared
   exists s', step im (total im) s OFrame = (s', RFrame k, map (fun i => (k, i)) (seq 0 (nrows im k))) /\ at_frame im (S k) s'.
 Proof.
   intros Hv Hk Hd (Hfin & Hrem & Hcase). cbn [step].
-  assert (Er : (remaining s =? 0) = false) by (apply Nat.eqb_neq; lia). rewrite Er.
+  assert (Er : frame_refused s = false) by (unfold frame_refused; replace (remaining s =? 0) with false by (symmetry; apply Nat.eqb_neq; lia); reflexivity). rewrite Er.
   destruct Hcase as [(-> & Hc & Hfl & Hn) | (H1 & Hc & Hfl & Hn)].
   - unfold advancing. rewrite Hfl. cbn [andb]. rewrite Hn, Hc. rewrite Nat.sub_0_r. rewrite take_all_rows by (auto; lia).
     unfold finish_decoding. cbn [next_row flushed cur]. rewrite frame_end_visible_total by exact Hk.
@@ -250,8 +250,8 @@ Proof.
     cbn. rewrite ?Hfl. cbn. eexists. split; [reflexivity|]. split; [exact Hfin|]. split; [cbn; lia|]. right. cbn. repeat split; lia.
 Qed.
 
-Lemma frame_at_end im vis s : remaining s = 0 -> step im vis s OFrame = (s, REndOfImage, []).
-Proof. intro H. cbn [step]. rewrite H. reflexivity. Qed.
+Lemma frame_at_end im vis s : remaining s = 0 -> next_row s = None -> step im vis s OFrame = (s, REndOfImage, []).
+Proof. intros H Hn. cbn [step]. unfold frame_refused. rewrite H, Hn, andb_false_r. reflexivity. Qed.
 
 Theorem frames_in_order_then_end im : valid im -> declared im = length (rows im) -> (1 <= declared im)%nat ->
   forall n k s, at_frame im k s -> k + n = declared im ->
@@ -259,8 +259,9 @@ Theorem frames_in_order_then_end im : valid im -> declared im = length (rows im)
     (s', map (fun i => (RFrame i, map (fun j => (i, j)) (seq 0 (nrows im i)))) (seq k n) ++ [(REndOfImage, []); (REndOfImage, [])]).
 Proof.
   intros Hv Hdl H1. induction n as [|n IH]; intros k s Ha Hk.
-  - destruct Ha as (Hfin & Hrem & _). assert (E : remaining s = 0) by lia.
-    change (0 + 2) with 2. cbn [frames_run]. rewrite !(frame_at_end im (total im) s E). eexists. reflexivity.
+  - destruct Ha as (Hfin & Hrem & Hcase). assert (E : remaining s = 0) by lia.
+    assert (En : next_row s = None) by (destruct Hcase as [(K0 & _)|(_ & _ & _ & Hn)]; [lia | exact Hn]).
+    change (0 + 2) with 2. cbn [frames_run]. rewrite !(frame_at_end im (total im) s E En). eexists. reflexivity.
   - destruct (one_frame im k s Hv ltac:(lia) ltac:(lia) Ha) as (s1 & Hs & Ha1).
     change (S n + 2) with (S (n + 2)). cbn [frames_run]. rewrite Hs.
     destruct (IH (S k) s1 Ha1 ltac:(lia)) as (s' & Hr). rewrite Hr.
@@ -291,7 +292,7 @@ Theorem step_preserves_cursor_ok im vis s o :
 Proof.
   intros Hv Hc. destruct o; cbn [step]; try (apply row_step_preserves_cursor_ok; exact Hc).
   - (* OFrame *)
-    destruct (remaining s =? 0); [exact Hc|].
+    destruct (frame_refused s); [exact Hc|].
     destruct (advancing s).
     + destruct (advance im vis s) as [s1 [r1|]] eqn:Ea.
       * cbn [fst]. revert Ea. unfold advance. destruct (_ <=? _); [destruct (all_visible _ _)|destruct (negb _)]; intro Q; inversion Q; subst; exact Hc.
@@ -370,10 +371,17 @@ Theorem frame_call_is_resumable im v v' s s1 d1 :
   step im v s OFrame = (s1, REofR, d1) ->
   step im v' s OFrame = (let '(s2, r, d2) := step im v' s1 OFrame in (s2, r, d1 ++ d2)).
 Proof.
-  intros Hv Hfl. cbn [step]. destruct (remaining s =? 0) eqn:Er; [discriminate|]. rewrite Hfl.
+  intros Hv Hfl. cbn [step]. destruct (frame_refused s) eqn:Er; [discriminate|]. rewrite Hfl.
   fold (pos im s).
   destruct (take_rows im v (cur s) (pos im s) (nrows im (cur s) - pos im s)) as [d [j|]] eqn:Et.
-  - intro H; inversion H; subst. clear H. cbn [step remaining flushed next_row cur]. rewrite Er.
+  - intro H; inversion H; subst. clear H. cbn [step remaining flushed next_row cur].
+    (* rows were outstanding before the call (else nothing could have been left over), and still are *)
+    assert (Es : exists j', next_row s = Some j').
+    { destruct (next_row s) as [j'|] eqn:En; [eexists; reflexivity|]. exfalso. unfold pos in Et. rewrite En, Nat.sub_diag in Et. cbn in Et. discriminate Et. }
+    destruct Es as [j' En].
+    assert (Er1 : frame_refused (mk_rstate (cur s) (remaining s) (flushed s) (Some j) (finished s)) = false).
+    { unfold frame_refused in *. cbn [remaining flushed next_row]. rewrite En in Er. exact Er. }
+    rewrite Er1.
     unfold advancing at 1. cbn [flushed next_row]. rewrite andb_false_r.
     rewrite (take_rows_resume im v v' (cur s) Hv _ _ _ _ Et).
     destruct (take_rows_consecutive _ _ _ _ _ _ _ Et) as [_ [Hj Hl]].
@@ -385,7 +393,10 @@ Proof.
     destruct (frame_end_visible im v' (cur s)); cbn; reflexivity.
   - unfold finish_decoding. cbn [next_row flushed cur]. destruct (flushed s) eqn:Ef; [discriminate|].
     destruct (frame_end_visible im v (cur s)) eqn:Ev; [discriminate|].
-    intro H; inversion H; subst. clear H. cbn [step remaining flushed next_row cur]. rewrite ?Er.
+    intro H; inversion H; subst. clear H. cbn [step remaining flushed next_row cur].
+    assert (Er1 : frame_refused (mk_rstate (cur s) (remaining s) false None (finished s)) = false).
+    { unfold frame_refused in *. cbn [remaining flushed next_row andb negb]. rewrite Ef in Er. cbn [andb negb] in Er. exact Er. }
+    rewrite Er1.
     unfold advancing at 1. cbn [flushed next_row andb].
     (* every row was already visible under v, hence under v' *)
     assert (Et' : take_rows im v' (cur s) (pos im s) (nrows im (cur s) - pos im s) = (d1, None)).
@@ -405,7 +416,7 @@ Theorem frame_call_in_mid_frame_stays_on_the_frame im vis s s' r d j :
   step im vis s OFrame = (s', r, d) ->
   cur s' = cur s /\ (forall kk, r = RFrame kk -> kk = cur s).
 Proof.
-  intros Hn. cbn [step]. destruct (remaining s =? 0); [intro H; inversion H; subst; split; [reflexivity | discriminate]|].
+  intros Hn. cbn [step]. destruct (frame_refused s); [intro H; inversion H; subst; split; [reflexivity | discriminate]|].
   assert (Ea : advancing s = false) by (unfold advancing; rewrite Hn; apply andb_false_r). rewrite Ea.
   destruct (take_rows im vis (cur s) _ _) as [dd [jj|]].
   - intro H; inversion H; subst. split; [reflexivity | discriminate].
@@ -421,4 +432,34 @@ Example early_flush_then_frame_call :
   snd (run im (reader_init im) [(ORow, 10); (ORow, 10); (ORowF, 10); (OFrame, 10); (OFrame, 10)]) =
   [(RRow 0 0, [(0, 0)]); (RRow 0 1, [(0, 1)]); (RRow 0 2, [(0, 2)]); (RFrame 0, [(0, 3); (0, 4)]);
    (RFrame 1, [(1, 0); (1, 1); (1, 2); (1, 3); (1, 4)])].
+Proof. vm_compute. reflexivity. Qed.
+
+(* ------------------------------------------------------------------ the second repaired defect of the mid-frame switch: with the whole input there,
+   a frame call made while rows of the current frame are outstanding SUCCEEDS and delivers exactly those rows - also when the data sequence of the
+   (last) frame was flushed early and the frame was already counted off (remaining = 0), where the call used to answer "end of image" *)
+Theorem frame_call_in_mid_frame_completes_the_frame im s j :
+  (cur s < length (rows im))%nat -> next_row s = Some j -> (j < nrows im (cur s))%nat ->
+  (flushed s = false -> remaining s <> 0) ->
+  exists s', step im (total im) s OFrame = (s', RFrame (cur s), map (fun i => (cur s, i)) (seq j (nrows im (cur s) - j))) /\
+             cur s' = cur s /\ next_row s' = None /\ flushed s' = true.
+Proof.
+  intros Hk Hn Hj Hrem. cbn [step].
+  assert (Er : frame_refused s = false).
+  { unfold frame_refused. rewrite Hn. destruct (flushed s) eqn:Ef; cbn [andb negb]; [apply andb_false_r|].
+    rewrite andb_true_r. apply Nat.eqb_neq. exact (Hrem eq_refl). }
+  rewrite Er.
+  assert (Ea : advancing s = false) by (unfold advancing; rewrite Hn; apply andb_false_r). rewrite Ea.
+  rewrite Hn. rewrite take_all_rows by (auto; lia).
+  unfold finish_decoding. cbn [next_row flushed cur remaining finished].
+  destruct (flushed s) eqn:Ef.
+  - eexists. split; [reflexivity|]. cbn. auto.
+  - rewrite frame_end_visible_total by exact Hk. eexists. split; [reflexivity|]. cbn. auto.
+Qed.
+
+(* non-vacuity: one frame of 5 rows (the LAST frame); the third row call flushes the sequence early and counts the frame off; the frame call then
+   still delivers rows 3 and 4, and only the call after it reports the end of the image *)
+Example early_flush_on_the_last_frame :
+  let im := mk_image [5] 1 (fun _ => false) in
+  snd (run im (reader_init im) [(ORow, 5); (ORow, 5); (ORowF, 5); (OFrame, 5); (OFrame, 5)]) =
+  [(RRow 0 0, [(0, 0)]); (RRow 0 1, [(0, 1)]); (RRow 0 2, [(0, 2)]); (RFrame 0, [(0, 3); (0, 4)]); (REndOfImage, [])].
 Proof. vm_compute. reflexivity. Qed.
